@@ -174,6 +174,50 @@ fn long_variants(seed: &str, big: bool) -> Vec<Vec<u8>> {
     out
 }
 
+/// Every text node of a valid message replaced, one at a time, by texts a lenient tokenizer lets
+/// through but a reader that resolves references chokes on (stray `&`, undefined / unterminated /
+/// out-of-range references), and by markup-like text. Random byte mutations almost always break the
+/// structure first; these keep it intact.
+fn text_variants(seed: &str) -> Vec<Vec<u8>> {
+    const NASTY: [&str; 16] = [
+        "a&b",
+        "&nbsp;",
+        "&#0;",
+        "&#99999999999;",
+        "&amp",
+        "&;",
+        "&#x;",
+        "&#xD800;",
+        "&#-1;",
+        "[name=\"R&D-IMPORT\"]",
+        "&amp;&lt;&gt;&apos;&quot;",
+        "&#38;#38;",
+        "<![CDATA[x&y]]>",
+        "",
+        " ",
+        "\u{feff}x",
+    ];
+    let b = seed.as_bytes();
+    let mut out = vec![];
+    let mut i = 0;
+    while i < b.len() {
+        if b[i] == b'>' && i + 1 < b.len() && b[i + 1] != b'<' && b[i + 1] != b']' {
+            let start = i + 1;
+            let end = start + b[start..].iter().position(|c| *c == b'<').unwrap_or(b.len() - start);
+            for t in NASTY {
+                let mut v = b[..start].to_vec();
+                v.extend_from_slice(t.as_bytes());
+                v.extend_from_slice(&b[end..]);
+                out.push(v);
+            }
+            i = end;
+        } else {
+            i += 1;
+        }
+    }
+    out
+}
+
 fn seeds_reply(kind: &str) -> Vec<String> {
     use reply::Child::*;
     let e = |sev: &'static str| Err {
@@ -231,6 +275,9 @@ pub fn main(opts: &Opts) {
         }
         for (i, s) in seeds.iter().enumerate() {
             for v in long_variants(s, i == 0) {
+                jobs.push((kind.to_string(), v));
+            }
+            for v in text_variants(s) {
                 jobs.push((kind.to_string(), v));
             }
         }
@@ -294,6 +341,7 @@ pub fn main(opts: &Opts) {
         hjobs.push(mutate(hello_seed.as_bytes(), &mut rng));
     }
     hjobs.extend(long_variants(&hello_seed, true));
+    hjobs.extend(text_variants(&hello_seed));
     let hres = run_pool_watchdog(
         hjobs.clone(),
         16,
